@@ -401,6 +401,16 @@ def orderedMapValidIndexedStream {β} (indices : List Int) (values : List β) (m
   | .ok s => .ok (s.io.outI, s.io.outV)
   | .error e => .error e
 
+/-- `max(indices[1:] - indices[:-1])` over the whole offsets array (0 for fewer than two offsets; the code finds it in one
+    chunked pass, which is the same maximum) -/
+def longestEntry (indices : List Int) : Nat :=
+  (List.zipWith (fun a b => (b - a).toNat) indices indices.tail).foldl max 0
+
+/-- the `value_factor=None` default of `ordered_map_valid_indexed_stream` (fix NC02c): at least `vf` (= 8 in the source) and
+    large enough for the longest entry of the source: `max(vf, ceil(longest / chunksize))` -/
+def autoValueFactor (vf : Nat) (indices : List Int) (cs : Nat) : Nat :=
+  max vf ((longestEntry indices + cs - 1) / cs)
+
 /-! ### the non-streaming helpers -/
 
 /-- one iteration of `safe_map_values` (NC04a fixed: the zero-initialised result is left alone when no
@@ -464,9 +474,14 @@ structure SI (β : Type) where
 
 /-- second pass of `safe_map_indexed_values`. `v_result[dst:dse] = …` always writes at the current fill position
     `offset`, so `v_result` is modelled as the list appended so far (for a well-formed source the slice has exactly
-    `delta` bytes and the appended list is the final `v_result`). -/
-def smivStep {β} (indices : List Int) (values : List β) (m : List Int) (filt : List Bool) (empty : List β) (i : Nat)
-    (s : SI β) : Except Err (SI β) :=
+    `delta` bytes and the appended list is the final `v_result`).
+    `capI = len(i_result)`, `capV = len(v_result)` are the sizes the kernel itself allocates between the passes
+    (`len(map_field) + 1` and the `value_length` of the first pass): `i_result[i + 1] = dse` is checked against `capI`, the
+    slice write `v_result[dst:dse] = …` must end inside `v_result` (stricter than numpy, which clamps the slice and then
+    rejects the size mismatch). With `empty_value=None` (and for an empty `empty_value`) nothing is written to `v_result`
+    on the unset branch. -/
+def smivStep {β} (indices : List Int) (values : List β) (m : List Int) (filt : List Bool) (empty : List β)
+    (capI : Nat) (capV : Int) (i : Nat) (s : SI β) : Except Err (SI β) :=
   match filt[i]? with
   | none => .error (.oob "map_filter[i]")
   | some true =>
@@ -476,20 +491,26 @@ def smivStep {β} (indices : List Int) (values : List β) (m : List Int) (filt :
       match getI indices k "data_indices[map_field[i]]", getI indices (k + 1) "data_indices[map_field[i]+1]" with
       | .ok sst, .ok sse =>
         let delta := sse - sst
-        .ok ⟨s.offset + delta, s.iRes ++ [s.offset + delta], s.vRes ++ pySlice values sst sse⟩
+        if capI ≤ i + 1 then .error (.oob "i_result[i+1]")
+        else if capV < s.offset + delta then .error (.oob "v_result[dst:dse]")
+        else .ok ⟨s.offset + delta, s.iRes ++ [s.offset + delta], s.vRes ++ pySlice values sst sse⟩
       | .error e, _ => .error e
       | _, .error e => .error e
   | some false =>
-    .ok ⟨s.offset + empty.length, s.iRes ++ [s.offset + empty.length], s.vRes ++ empty⟩
+    if capI ≤ i + 1 then .error (.oob "i_result[i+1]")
+    else if !empty.isEmpty && capV < s.offset + empty.length then .error (.oob "v_result[dst:dse]")
+    else .ok ⟨s.offset + empty.length, s.iRes ++ [s.offset + empty.length], s.vRes ++ empty⟩
 
 /-- `safe_map_indexed_values(data_indices, data_values, map_field, map_filter, empty_value)`
-    (`empty_value=None` is `empty = []`) -/
+    (`empty_value=None` is `empty = []`): the first pass computes `value_length`, then
+    `i_result = np.zeros(len(map_field) + 1)`, `v_result = np.zeros(value_length)`, `i_result[0] = 0` (in range: at least
+    one slot) and the second pass fills them -/
 def safeMapIndexedValues {β} (indices : List Int) (values : List β) (m : List Int) (filt : List Bool) (empty : List β) :
     Except Err (List Int × List β) :=
   match forE (smivLenStep indices m filt empty.length) 0 m.length 0 with
   | .error e => .error e
-  | .ok _ =>
-    match forE (smivStep indices values m filt empty) 0 m.length ⟨0, [0], []⟩ with
+  | .ok valueLength =>
+    match forE (smivStep indices values m filt empty (m.length + 1) valueLength) 0 m.length ⟨0, [0], []⟩ with
     | .error e => .error e
     | .ok s => .ok (s.iRes, s.vRes)
 
